@@ -891,7 +891,7 @@ class Run:
             for e in written:
                 key = (jid(e[4][0]), int(e[4][1]), e[4][2])
                 if on_disk.get(key, 0) < 1:
-                    for px in [("C11" if mode == "faults" else "C12" if mode in BATCHFAULT_MODES else "C03")] + PX:
+                    for px in [("C11" if mode == "faults" else "C12" if mode in BATCHFAULT_MODES else "C03")] + PX + (["C08"] if mode in ("plain", "busy") else []):
                         self.bad(px, "row.lost", f"the result {key} was written but is on disk nowhere at the end")
         exits = {}
         for e in tr:
